@@ -218,6 +218,43 @@ int g_w;
   __CPROVER_loop_invariant(g_sub < subset_num ==> num_vs_in_subset[g_sub] == num_vs_in_subset[0])                      \
   __CPROVER_decreases(num_subsets - subset_num)
 
+/* ---- IterativeReconstruction::reconstruct: the loop over sub-iterations (statement kernel) ----
+   From the property ("Within each full iteration every subset is used exactly once"): get_subset_num() is a function of
+   subiteration_num (kernel above), so the driver has to present the sub-iteration numbers start, start+1, ...,
+   num_subiterations to update_estimate exactly once each, in this order, unless the run is terminated early
+   (terminate_iterations, set by end_of_iteration_processing: nondeterministic here). Ghost sub-iteration g_k. */
+struct IRL { int subiteration_num, start_subiteration_num, num_subiterations; int terminate_iterations; };
+int g_k, g_upd_calls, g_upd_last, g_upd_order_bad;
+static inline void K_call_update_estimate(struct IRL* self)
+{
+  if (self->subiteration_num == g_k)
+    ++g_upd_calls;
+  if (g_upd_last != self->subiteration_num - 1)
+    g_upd_order_bad = 1; /* a sub-iteration was skipped or repeated */
+  g_upd_last = self->subiteration_num;
+}
+static inline void K_call_end_of_iteration_processing(struct IRL* self)
+{
+  if (nondet_bool())
+    self->terminate_iterations = 1;
+}
+#define CONTRACT_K_ir_reconstruct_loop                                                                               \
+  __CPROVER_requires(__CPROVER_is_fresh(self, sizeof(*self)) && self->start_subiteration_num >= 1 && self->num_subiterations >= 0 && self->num_subiterations < 1000000 \
+                     && self->start_subiteration_num < 1000000 && self->terminate_iterations == 0)                    \
+  __CPROVER_requires(g_upd_calls == 0 && g_upd_order_bad == 0 && g_upd_last == self->start_subiteration_num - 1)       \
+  __CPROVER_assigns(self->subiteration_num, self->terminate_iterations, g_upd_calls, g_upd_last, g_upd_order_bad)      \
+  __CPROVER_ensures(g_upd_order_bad == 0 && g_upd_calls <= 1)                                                          \
+  __CPROVER_ensures(!(g_k >= self->start_subiteration_num && g_k <= self->num_subiterations) ==> g_upd_calls == 0)     \
+  __CPROVER_ensures((!self->terminate_iterations && g_k >= self->start_subiteration_num && g_k <= self->num_subiterations) ==> g_upd_calls == 1) \
+  __CPROVER_ensures(g_upd_calls == (g_k >= self->start_subiteration_num && g_k <= g_upd_last ? 1 : 0))
+#define LC_K_ir_reconstruct_loop_0                                                                                   \
+  __CPROVER_assigns(self->subiteration_num, self->terminate_iterations, g_upd_calls, g_upd_last, g_upd_order_bad)      \
+  __CPROVER_loop_invariant(self->subiteration_num >= self->start_subiteration_num && self->subiteration_num <= (self->num_subiterations > self->start_subiteration_num - 1 ? self->num_subiterations : self->start_subiteration_num - 1) + 1) \
+  __CPROVER_loop_invariant(g_upd_order_bad == 0 && g_upd_last == self->subiteration_num - 1)                           \
+  __CPROVER_loop_invariant(g_upd_calls == ((g_k >= self->start_subiteration_num && g_k < self->subiteration_num) ? 1 : 0)) \
+  __CPROVER_loop_invariant(self->terminate_iterations == 0 || self->terminate_iterations == 1)                         \
+  __CPROVER_decreases((long)self->num_subiterations + 2 - self->subiteration_num)
+
 /* ---- IterativeReconstruction::get_subset_num ---- */
 #define MAXSUB 128
 struct IVEC { int n; int e[MAXSUB]; }; /* VectorWithOffset<int> _current_subset_array (index range [0,n)) */
